@@ -41,6 +41,12 @@ type params struct {
 	Dup bool `json:"dup,omitempty"`
 	// Modem (library sender): the sender's connection implements transport.Flusher and transport.TxBuffer.
 	Modem bool `json:"modem,omitempty"`
+	// SenderMaster (library sender): the sending station is the master, so the receiving station takes the first turn,
+	// has nothing (FF), and the damaged transfer happens AFTER the sender has seen the remote's FF.
+	SenderMaster bool `json:"sender_master,omitempty"`
+	// Quiet (with SenderMaster): the receiving station has nothing to send at all - its first turn is FF and, had the
+	// transfer been good, its next word would have ended the session (FQ).
+	Quiet bool `json:"quiet,omitempty"`
 }
 
 var Check = &vrt.Check{
@@ -113,6 +119,15 @@ func plan(seed int64, tier string) []vrt.Case {
 		for _, kind := range []string{"subst", "pairs", "struct"} {
 			cs = append(cs, vrt.Case{ID: fmt.Sprintf("lib-modem-m%d-%s", m, kind), TimeoutS: 1200,
 				Params: vrt.MustParams(params{Seed: seed, Leg: "lib", Msg: m, Kind: kind, Shard: 0, Shards: map[string]int{"subst": 8, "pairs": 1, "struct": 1}[kind], Pairs: 150, Modem: true})})
+		}
+	}
+	// the sender is the master: its block goes out after the remote's FF (the session can end with either side's next word)
+	for _, m := range msgs {
+		for _, kind := range []string{"subst", "values", "pairs", "struct"} {
+			for _, quiet := range []bool{false, true} {
+				cs = append(cs, vrt.Case{ID: fmt.Sprintf("lib-sendermaster-q%v-m%d-%s", quiet, m, kind), TimeoutS: 1200,
+					Params: vrt.MustParams(params{Seed: seed, Leg: "lib", Msg: m, Kind: kind, Shard: 0, Shards: map[string]int{"subst": 4, "values": 4, "pairs": 1, "struct": 1}[kind], Pairs: 600, SenderMaster: true, Quiet: quiet})})
+			}
 		}
 	}
 	// gzip payloads (GZIP_EXPERIMENT on both stations)
@@ -477,6 +492,18 @@ func run(c vrt.Case) vrt.Obs {
 		ll, err = newLibLeg(p.Msg, p.Block, p.Target, p.Gzip)
 		if ll != nil {
 			ll.modem = true
+		}
+		l = ll
+	} else if p.Leg == "lib" && p.SenderMaster {
+		var ll *libLeg
+		ll, err = newLibLeg(p.Msg, p.Block, p.Target, p.Gzip)
+		if ll != nil {
+			ll.sc.MasterIsA = true
+			if p.Quiet {
+				ll.sc.MsgsB = nil
+				delete(ll.sc.Truth, "FOLLOWER")
+				delete(ll.sc.Policy, "FOLLOWER")
+			}
 		}
 		l = ll
 	} else if p.Leg == "lib" {
